@@ -283,7 +283,7 @@ func TestVerif_C07_Allocator(t *testing.T) {
 	rapid.Check(t, func(rt *rapid.T) {
 		caseNo++
 		e := &vfC07AllocEnv{ctx: ctx, ds: bucket.GetMetadataStore(), stats: stats, keys: base.NewMetadataKeys(fmt.Sprintf("vfa%d", caseNo))}
-		growth := rapid.Bool().Draw(rt, "batchGrowth")
+		growth := rapid.SampledFrom([]bool{true, false, true}).Draw(rt, "batchGrowth")
 		if growth {
 			MaxSequenceIncrFrequency = time.Hour // every reserve counts as "too frequent": batches double up to the maximum
 		} else {
@@ -429,6 +429,9 @@ func TestVerif_C07_Allocator(t *testing.T) {
 				}
 			},
 			"stop": func(rt *rapid.T) {
+				if len(liveOnes()) <= 1 && len(allocs) >= 6 {
+					rt.Skip() // keep one allocator alive once no further one may start
+				}
 				i := pick()
 				kit.Guard(rt, "C07", "Allocator", render, func() { allocs[i].a.Stop(ctx) })
 				allocs[i].live = false
@@ -498,7 +501,7 @@ func TestVerif_C07_AllocatorConc(t *testing.T) {
 	rapid.Check(t, func(rt *rapid.T) {
 		caseNo++
 		e := &vfC07AllocEnv{ctx: ctx, ds: bucket.GetMetadataStore(), stats: stats, keys: base.NewMetadataKeys(fmt.Sprintf("vfc%d", caseNo))}
-		growth := rapid.Bool().Draw(rt, "batchGrowth")
+		growth := rapid.SampledFrom([]bool{true, false, true}).Draw(rt, "batchGrowth")
 		MaxSequenceIncrFrequency = 0
 		if growth {
 			MaxSequenceIncrFrequency = time.Hour
@@ -677,7 +680,13 @@ type vfC07World struct {
 	classes  map[string]int
 	nontriv  bool
 	armedKey string
-	armedFn  func()
+	armedFns []func() // other clients' writes, one per compare-and-swap window of the next write
+	inInter  bool
+}
+
+func vfC07PushRev(ctx context.Context, docID, parent string, body Body) string {
+	gen, _ := ParseRevID(ctx, parent)
+	return fmt.Sprintf("%d-%08x", gen+1, kit.Hash(fmt.Sprintf("%s/%s/%v", docID, parent, body["n"]))&0xffffffff)
 }
 
 func (w *vfC07World) render() string { return strings.Join(w.ops, "; ") }
@@ -750,7 +759,16 @@ func (w *vfC07World) write(label, docID, parent string, body Body, tombstone boo
 	var doc *Document
 	var err error
 	kit.Guard(w.rt, "C07", "Writes", w.render, func() {
-		if tombstone {
+		if label == "raced-push" || label == "interloper-same-push" {
+			// a replicated revision (new_edits=false): a child of parent with a client-made revision id;
+			// with conflicts allowed it is accepted as a branch when parent is no longer a leaf
+			rev := vfC07PushRev(w.env.Ctx, docID, parent, body)
+			history := []string{rev}
+			if parent != "" {
+				history = append(history, parent)
+			}
+			doc, newRev, err = w.env.Coll.PutExistingRevWithBody(w.env.Ctx, docID, body, history, false, ExistingVersionWithUpdateToHLV)
+		} else if tombstone {
 			newRev, doc, err = w.env.Coll.DeleteDoc(w.env.Ctx, docID, DocVersion{RevTreeID: parent})
 		} else {
 			if parent != "" {
@@ -761,8 +779,12 @@ func (w *vfC07World) write(label, docID, parent string, body Body, tombstone boo
 	})
 	kind := vfC07Classify(err)
 	w.op("%s(%s,parent=%s)=%s", label, docID, parent, kind)
+	if err == nil && doc == nil {
+		// the pushed revision was already known (another client pushed the same revision first): a no-op
+		kind = "alreadyknown"
+	}
 	w.classes["write-"+kind]++
-	if err != nil {
+	if err != nil || doc == nil {
 		return kind
 	}
 	seq, unused := w.storedDoc(docID)
@@ -886,7 +908,7 @@ func TestVerif_C07_Writes(t *testing.T) {
 	oldFreq := MaxSequenceIncrFrequency
 	defer func() { MaxSequenceIncrFrequency = oldFreq }()
 	rapid.Check(t, func(rt *rapid.T) {
-		growth := rapid.Bool().Draw(rt, "batchGrowth")
+		growth := rapid.SampledFrom([]bool{true, false, true}).Draw(rt, "batchGrowth")
 		MaxSequenceIncrFrequency = 0
 		if growth {
 			MaxSequenceIncrFrequency = time.Hour
@@ -928,9 +950,11 @@ func TestVerif_C07_Writes(t *testing.T) {
 			panic(kit.InconclusiveErr{Msg: fmt.Sprintf("collection data store is %T, not the leaky wrapper", env.Coll.dataStore)})
 		}
 		lds.SetUpdateCallback(func(key string) {
-			if w.armedFn != nil && key == w.armedKey {
-				fn := w.armedFn
-				w.armedFn = nil
+			if len(w.armedFns) > 0 && key == w.armedKey && !w.inInter {
+				fn := w.armedFns[0]
+				w.armedFns = w.armedFns[1:]
+				w.inInter = true // the interloper's own write is not interfered with
+				defer func() { w.inInter = false }()
 				fn()
 			}
 		})
@@ -962,23 +986,39 @@ func TestVerif_C07_Writes(t *testing.T) {
 			w.write(label, docID, parent, vfC07GenBody(rt, reject), tomb)
 		}
 		racedWrite := func(rt *rapid.T) {
-			// another client's complete write lands between this write's read and its compare-and-swap
+			// other clients' complete writes land between this write's read and its compare-and-swap
+			// (one per attempt): the write has reserved a sequence each time it loses the race
 			docID := rapid.SampledFrom(docIDs).Draw(rt, "doc")
 			parent := w.docRev[docID]
 			body := vfC07GenBody(rt, false)
-			inner := vfC07GenBody(rt, false)
-			innerKind := ""
-			w.armedKey = docID
-			w.armedFn = func() {
-				w.op("  [in the CAS window of the next write]")
-				innerKind = w.write("interloper-put", docID, w.docRev[docID], inner, false)
+			label := "raced-put"
+			if allowConflicts && rapid.Bool().Draw(rt, "asPush") {
+				label = "raced-push"
 			}
-			kind := w.write("raced-put", docID, parent, body, false)
-			w.armedFn = nil
-			w.classes["raced-"+kind+"-after-interloper-"+innerKind]++
-			if innerKind == "ok" {
-				// the outer write had reserved a sequence before its compare-and-swap failed
-				w.nontriv = true
+			nInter := rapid.IntRange(1, 2).Draw(rt, "interlopers")
+			var innerKinds []string
+			w.armedKey = docID
+			for k := 0; k < nInter; k++ {
+				inner := vfC07GenBody(rt, false)
+				samePush := label == "raced-push" && rapid.IntRange(0, 2).Draw(rt, "sameRevision") == 0
+				w.armedFns = append(w.armedFns, func() {
+					w.op("  [in a CAS window of the next write]")
+					if samePush {
+						// another replicator delivers the very same revision first
+						innerKinds = append(innerKinds, "same:"+w.write("interloper-same-push", docID, parent, body, false))
+					} else {
+						innerKinds = append(innerKinds, w.write("interloper-put", docID, w.docRev[docID], inner, false))
+					}
+				})
+			}
+			kind := w.write(label, docID, parent, body, false)
+			w.armedFns = nil
+			w.classes[label+"-"+kind+"-after-"+strings.Join(innerKinds, "+")]++
+			for _, ik := range innerKinds {
+				if strings.HasSuffix(ik, "ok") {
+					// the outer write had reserved a sequence before its compare-and-swap failed
+					w.nontriv = true
+				}
 			}
 		}
 		principal := func(rt *rapid.T) {
